@@ -11,6 +11,7 @@
 #include <aws/common/lru_cache.h>
 #include <aws/common/linked_hash_table.h>
 #include <aws/common/error.h>
+#include <../source/lru_cache.c> /* for the private struct lru_cache_impl_vtable (typed object for aws_mem_acquire_many) */
 #ifndef KIND
 #    define KIND 3
 #endif
@@ -21,7 +22,7 @@
 #    define OPS "PPPF"
 #endif
 #ifndef NP
-#    define NP 4 /* number of put operations in OPS: bounds every walk over the entries */
+#    define NP 4 /* upper bound on the number of put operations in OPS ('*' counts as a put): bounds every walk over the entries */
 #endif
 #define NK 4
 #define NC 3
@@ -44,8 +45,10 @@ static void r_erase(size_t i, bool destroy) {
     for (size_t j = 0; j + 1 < NP + 1; ++j) if (j >= i && j + 1 < r_n) { r_key[j] = r_key[j + 1]; r_val[j] = r_val[j + 1]; }
     r_n--;
 }
+static bool saw_evict, saw_replace_distinct, saw_replace_same;
 static void r_put(size_t k, size_t v) {
     long i = r_find(cls(k));
+    if (i >= 0) { if (r_key[i] != k) saw_replace_distinct = true; else saw_replace_same = true; }
     if (i >= 0) { /* replace: value destroyed; key destroyed only if it is a different pointer; entry moves to the back */
         exp_vd[r_val[i]]++;
         if (r_key[i] != k) exp_kd[r_key[i]]++;
@@ -53,12 +56,50 @@ static void r_put(size_t k, size_t v) {
     }
     r_key[r_n] = k; r_val[r_n] = v; r_n++;
     if (KIND != 0 && r_n > MAXI) {
+        saw_evict = true;
         if (KIND == 2) r_erase(r_n - 2, true); /* LIFO: the most recently inserted before the new one */
         else r_erase(0, true);                  /* FIFO: oldest inserted; LRU: least recently used */
     }
 }
 static struct aws_linked_hash_table lht;
 static struct aws_cache *cache;
+/* statically typed objects for the library's allocations (objects from a generic allocator are byte arrays for CBMC) */
+/* every node is its own top-level object (see stubs/hash_model.c: pointers into an array of structs are field-insensitive for CBMC) */
+static struct aws_linked_hash_table_node nd0, nd1, nd2, nd3, nd4, nd5, nd6, nd7;
+static struct aws_linked_hash_table_node *const node_pool[8] = {&nd0, &nd1, &nd2, &nd3, &nd4, &nd5, &nd6, &nd7};
+static bool node_live[NP + 1];
+static size_t node_next;
+static struct aws_cache cache_obj;
+static bool cache_live;
+static struct lru_cache_impl_vtable impl_obj;
+void *verif_typed_calloc(size_t size) {
+    if (size == sizeof(struct aws_linked_hash_table_node)) {
+        ASSERT(node_next < NP + 1, "node pool: one node per put (bound of the harness)");
+        ASSUME(node_next < NP + 1);
+        static const struct aws_linked_hash_table_node zero;
+        *node_pool[node_next] = zero; node_live[node_next] = true;
+        return node_pool[node_next++];
+    }
+    if (size == sizeof(struct aws_cache)) { static const struct aws_cache zero; cache_obj = zero; cache_live = true; return &cache_obj; }
+    return NULL;
+}
+void *verif_typed_acquire(size_t size) { /* contents stay arbitrary: acquire_many does not zero */
+#ifndef VERIF_NATIVE
+    if (size == sizeof(struct aws_cache)) { struct aws_cache any; cache_obj = any; cache_live = true; return &cache_obj; } /* uninitialised local = arbitrary value */
+    if (size == sizeof(struct lru_cache_impl_vtable)) { struct lru_cache_impl_vtable any; impl_obj = any; return &impl_obj; }
+#else
+    if (size == sizeof(struct aws_cache)) { memset(&cache_obj, 0xA5, sizeof cache_obj); cache_live = true; return &cache_obj; }
+    if (size == sizeof(struct lru_cache_impl_vtable)) return &impl_obj;
+#endif
+    return NULL;
+}
+bool verif_typed_release(void *p) {
+    for (size_t i = 0; i < NP + 1; ++i)
+        if (p == node_pool[i]) { ASSERT(node_live[i], "no node is released twice"); node_live[i] = false; return true; }
+    if (p == &cache_obj) { ASSERT(cache_live, "cache released once"); cache_live = false; return true; }
+    return false;
+}
+static size_t live_nodes(void) { size_t n = 0; for (size_t i = 0; i < NP + 1; ++i) if (node_live[i]) n++; return n; }
 static const struct aws_linked_list *the_list(void) { return aws_linked_hash_table_get_iteration_list(KIND == 0 ? &lht : &cache->table); }
 static void chk_state(void) {
     const struct aws_linked_list *l = the_list();
@@ -67,12 +108,15 @@ static void chk_state(void) {
         if (i < r_n) {
             ASSERT(n != aws_linked_list_end(l), "order: the table holds every entry of the reference map");
             const struct aws_linked_hash_table_node *e = AWS_CONTAINER_OF(n, struct aws_linked_hash_table_node, node);
+            { bool live = false; for (size_t j = 0; j < NP + 1; ++j) if (e == node_pool[j] && node_live[j]) live = true;
+              ASSERT(live, "every listed node is a live allocation (no use after release)"); }
             ASSERT(e->key == &keyobj[r_key[i]] && e->value == &valobj[r_val[i]], "order: iteration order / retained entries equal the reference (insertion order, re-insert moves to the back, policy victim evicted)");
             n = aws_linked_list_next(n);
         }
     ASSERT(n == aws_linked_list_end(l), "order: no extra entries");
     size_t cnt = KIND == 0 ? aws_linked_hash_table_get_element_count(&lht) : aws_cache_get_element_count(cache);
     ASSERT(cnt == r_n, "count equals the reference map");
+    ASSERT(live_nodes() == r_n, "exactly one live node per retained entry (displaced nodes are released, none leaks)");
     if (KIND != 0) ASSERT(cnt <= MAXI, "cache never holds more than its configured maximum");
     for (size_t k = 0; k < NK; ++k) ASSERT(kd[k] == exp_kd[k], "key destructor runs exactly once per displaced key, never otherwise");
     for (size_t v = 0; v < 16; ++v) ASSERT(vd[v] == exp_vd[v], "value destructor runs exactly once per displaced value, never otherwise");
@@ -99,6 +143,12 @@ void h_cache_program(void) {
 #endif
         size_t c = cls(k);
         char op = ops[s];
+        if (op == '*') { /* the operation itself is the solver's choice */
+            static const char alphabet[] = "PFRCUM";
+            unsigned sel = nd_u8();
+            ASSUME(sel < (KIND == 3 ? 6u : 4u));
+            op = alphabet[sel];
+        }
         if (op == 'P') {
             size_t v = nextv++;
             int rc = KIND == 0 ? aws_linked_hash_table_put(&lht, &keyobj[k], &valobj[v]) : aws_cache_put(cache, &keyobj[k], &valobj[v]);
@@ -129,6 +179,17 @@ void h_cache_program(void) {
         }
         chk_state();
     }
-    if (r_n == MAXI && KIND != 0) WITNESS("cache full at the end");
+    bool full = r_n == MAXI && KIND != 0;
+    /* tear-down: every remaining entry is destroyed exactly once, every node and the cache object are released */
+    if (KIND == 0) aws_linked_hash_table_clean_up(&lht); else aws_cache_destroy(cache);
+    while (r_n) r_erase(r_n - 1, true);
+    for (size_t k = 0; k < NK; ++k) ASSERT(kd[k] == exp_kd[k], "tear-down: key destructor ran exactly once per remaining key");
+    for (size_t v = 0; v < 16; ++v) ASSERT(vd[v] == exp_vd[v], "tear-down: value destructor ran exactly once per remaining value");
+    ASSERT(live_nodes() == 0, "tear-down: every node released");
+    if (KIND != 0) ASSERT(!cache_live, "tear-down: cache object released");
+    if (full) WITNESS("cache full at the end");
+    if (saw_evict) WITNESS("an entry was evicted by the policy");
+    if (saw_replace_distinct) WITNESS("existing key replaced through an equal-but-distinct key pointer");
+    if (saw_replace_same) WITNESS("existing key replaced through the same pointer");
     WITNESS("program");
 }
